@@ -183,7 +183,13 @@ impl<T: Qcow2IoOps> Qcow2Dev<T> {
         let mut first_zero = true;
 
         log::info!("free_clusters start {:x} num {}", host_cluster, count);
+        #[cfg(qcow2_rs_verif)]
+        let first_cluster = host_cluster;
         while count > 0 {
+            #[cfg(qcow2_rs_verif)]
+            if host_cluster != first_cluster {
+                crate::verif::probe("free:crosses-rb-slice");
+            }
             let cls = HostCluster(host_cluster);
             let rt_e = self.get_reftable_entry(cls.rt_index(info)).await;
 
